@@ -17,7 +17,7 @@ Glue mirrored here (session.py): `generate_keys` 116-214 — which resolved-suit
 `MAC.digest_size`, `CryptoAlgo[0]`, `CryptoAlgo[1]`, `Mode[1]`, `TagLength`, the block-size table 205-210, the
 extensions dict for encrypt-then-MAC, `self.tls_version`), the label filter for TLS ≤ 1.2 (138-140), `bytes.fromhex`
 of the chosen lines; `handle_packet` 253-276 (direction = source is the server endpoint); `decrypt` 278-299.
-Not modelled: record compression (`compression_method` ≠ 0 makes `genKeys` answer `raised`; the correspondence
+Not modelled: record compression (`compression_method` = 1, the only value `Decryptor` acts on, makes `genKeys` answer `raised`; the correspondence
 generators never negotiate it), logging.
 Everything the theorems of `Props/C03, C07Session, C08Session, C13Session` say about `Session.run` for EVERY `Ops`
 holds for this instance; `Props/C01Pipeline` adds what is specific to it. Core Lean only (linked into `tlxdriver`).
@@ -135,7 +135,7 @@ def genKeys (H : Crypto.Prims) (P : Cipher.Prims) (kl : List Keylog.Key) (v : Op
         match v with
         | none => .raised                                       -- `keys` unbound: no `case` matched
         | some v =>
-          if comp ≠ 0 then .raised else                         -- compression: not modelled
+          if comp = 1 then .raised else                         -- DEFLATE (the only value the decryptor acts on): not modelled
           match secretsOf (v = .tls13) found with
           | none => .raised
           | some secrets =>
